@@ -312,6 +312,8 @@ def check_inv_points(rep, mod, tier):
         rin = Region('in1', 'param', extent=8, elem='field')
         rout = Region('result', 'param', extent=8, elem='field')
         I.mem[(rin, 0)] = (a, 8)
+        if a & 1:
+            rout = rin                   # every other operand in place: inv(x, x)
         try:
             I.call(name, [Ptr(rout, 0), Ptr(rin, 0)])
             g = I.mem.get((rout, 0))
@@ -346,20 +348,32 @@ def check_div(rep, mod):
         except KeyError:
             rep.incomplete('div:' + sig, 'div-is-mul-inv', '', 'not found')
             continue
-        ctx = contracts.Ctx()
-        summ, _ = contracts.wrapper_summaries(mod, ctx)
-        try:
-            eff = harness.run_routine(mod, name, summ)
-            ins = [p for p in eff.params if p.dty == 'E const&']
-            a, b = [Poly.var('%s[0]' % p.region.name) for p in ins]
-            want = (a * Poly.var('Inv(%s)' % b)).modp()
-            outp = [p for p in eff.params if p.dty == 'E&']
-            got = eff.writes.get((outp[0].region.name, 0)) if outp else eff.ret
-            ok = isinstance(got, FV) and got.nf == want
-            (rep.ok if ok else rep.refute)('div:' + sig, 'div-is-mul-inv', site_of(mod, name),
-                                           'div(a,b) = a * inv(b): with inv(b)*b = 1 this gives div(a,b)*b = a' if ok else 'div computes %s' % (got,))
-        except (Incomplete, IRError, Sink) as e:
-            rep.incomplete('div:' + sig, 'div-is-mul-inv', site_of(mod, name), str(e))
+        ps0 = harness.describe(mod, name)
+        ins0 = [p.name for p in ps0 if p.dty == 'E const&']
+        outs0 = [p.name for p in ps0 if p.dty == 'E&']
+        hyps = [None]
+        if outs0 and len(ins0) == 2:
+            # in place: the quotient written over the dividend, over the divisor, a / a, and all three the same object
+            hyps += [{ins0[0]: outs0[0]}, {ins0[1]: outs0[0]}, {ins0[1]: ins0[0]}, {ins0[0]: outs0[0], ins0[1]: outs0[0]}]
+        elif len(ins0) == 2:
+            hyps += [{ins0[1]: ins0[0]}]
+        for al in hyps:
+            tag = 'div:' + sig + ('' if not al else ' alias=' + ','.join('%s=%s' % kv for kv in sorted(al.items())))
+            ctx = contracts.Ctx()
+            summ, _ = contracts.wrapper_summaries(mod, ctx)
+            try:
+                eff = harness.run_routine(mod, name, summ, alias=al)
+                ins = [p for p in eff.params if p.dty == 'E const&']
+                a, b = [Poly.var('%s[0]' % p.region.name) for p in ins]
+                want = (a * Poly.var('Inv(%s)' % b)).modp()
+                outp = [p for p in eff.params if p.dty == 'E&']
+                got = eff.writes.get((outp[0].region.name, 0)) if outp else eff.ret
+                ok = isinstance(got, FV) and got.nf == want
+                (rep.ok if ok else rep.refute)(tag, 'div-is-mul-inv', site_of(mod, name),
+                                               'div(a,b) = a * inv(b) on the operand values at the call: with inv(b)*b = 1 this gives div(a,b)*b = a' if ok
+                                               else 'div computes %s, expected %s' % (str(got)[:120], want))
+            except (Incomplete, IRError, Sink) as e:
+                rep.incomplete(tag, 'div-is-mul-inv', site_of(mod, name), str(e))
 
 
 def exponents(tier):
